@@ -18,6 +18,7 @@ def reg(pid, **kw):
 # ------------------------------------------------------------------------------------------- C19
 KMX = ('yuvxyb-math/src/matrix.rs', 'k_matrix.rs', 'verif_kani_matrix')
 KMXP = ('yuvxyb-math/src/matrix.rs', 'k_matrix_points.rs', 'verif_kani_matrix_points')
+UR_OPT = {'optional': 'the a-priori f32 rounding budget of the matrix products (standard model); the exact algebra is decided by U-matrix / U-color and the kernels by Kani'}
 def plan_c19(tier, seed):
     FX = 'FIXED integer-valued operands in generic position (det(A) = 4) on which f32/f64 arithmetic is exact; expected values computed in i32 from the textbook definitions'
     hs = [H('matrix_ops_fixed_exact_f32', fixed=True, bounded=FX, domain='one fixed operand set', desc='real compiled f32 instantiation: mul_mat, mul_vec, mul_arr, transpose, cross, dot, scalar_div, component_mul, invert = adj/det, A*inv(A) = inv(A)*A = I, all exact'),
@@ -26,7 +27,7 @@ def plan_c19(tier, seed):
     SP = '160 fixed operand sets (tools_golden_matrix.py: pseudo-random entries in [-2,2] with |det| >= 0.5, 20 with |det| <= 0.6, 20 with corner entries), references computed in f64 inside the harness'
     hs += [H(f'matrix_points_{t}_{c}', fixed=True, bounded=SP, domain='40 fixed matrices and vector pairs', desc=f'real {t} instantiation: mul_mat/mul_vec/mul_arr/cross/dot within 1e-5*max(1,|exact|); A*invert(A) and invert(A)*A within 1e-4 of I')
            for t in ('f32', 'f64') for c in 'abcd']
-    return {'verus': [('u_matrix', {}), ('u_round', {})], 'kani': [{'crate_dir': 'yuvxyb-math', 'inject': [KMX, KMXP], 'harnesses': hs}]}
+    return {'verus': [('u_matrix', {}), ('u_round', UR_OPT)], 'kani': [{'crate_dir': 'yuvxyb-math', 'inject': [KMX, KMXP], 'harnesses': hs}]}
 reg('C19', plan=plan_c19, level='proof', min_obligations=60,
     title='3x3 matrix/vector algebra agrees with its mathematical definition',
     technique='Verus contracts on the real generic matrix.rs for every exact field T + generated polynomial lemmas (A*inv(A)=I); the products (mul_arr, mul_vec, mul_mat, dot) additionally for every T obeying the standard model of binary32/binary64 rounding (a-priori error bound)',
@@ -132,7 +133,7 @@ def plan_c01(tier, seed):
     names, txt = sweep_harness_text('decode', sel)
     hs += [H(n, bounded='one plane symbolic over all codes, other two fixed at the companions in the name', domain=n,
              desc='real to_f32_* + inv.mul_arr vs H.273 closed form in f64, 3e-6') for n in names]
-    return {'verus': [('u_matrix', {}), ('u_color', {}), ('u_round', {})],
+    return {'verus': [('u_matrix', {}), ('u_color', {}), ('u_round', UR_OPT)],
             'kani': [{'crate_dir': '', 'inject': [YR, KC], 'append': [('k_color.rs', txt)], 'harnesses': hs}]}
 reg('C01', plan=plan_c01, level='proof', min_obligations=400,
     title='YUV->RGB decoding equals the H.273 definition',
@@ -153,7 +154,7 @@ def plan_c02(tier, seed):
     hs += [H(n, domain='v: every f32 in [-2,2]', desc='chroma quantiser incl. the full-range -0.5 special case') for n in depth_names('quant_chroma', 'thorough')]
     hs += [H(n, domain='v: all 2^32 f32 bit patterns', desc='emitted luma and chroma codes <= 2^n-1') for n in depth_names('codes_valid', 'thorough')]
     hs += [H(f'encode_{m}', domain='input-free', desc='every f32 entry of the real get_rgb_to_yuv_matrix within 6e-8 of the H.273 closed form (f64)') for m in MATS]
-    return {'verus': [('u_color', {}), ('u_dispatch', {}), ('u_round', {})],
+    return {'verus': [('u_color', {}), ('u_dispatch', {}), ('u_round', UR_OPT)],
             'kani': [{'crate_dir': '', 'inject': [YR, KC], 'harnesses': hs}]}
 reg('C02', plan=plan_c02, level='proof', min_obligations=400,
     title='RGB->YUV encoding rounds to the nearest H.273 code',
@@ -180,7 +181,7 @@ def plan_c08(tier, seed):
     names, txt = sweep_harness_text('roundtrip', sel)
     hs += [H(n, bounded='one plane symbolic over all codes, other two fixed at the companions in the name', domain=n,
              desc='real composite from_f32 . fwd.mul_arr . inv.mul_arr . to_f32 returns the (legal-range-clamped) codes') for n in names]
-    return {'verus': [('u_color', {}), ('u_round', {})],
+    return {'verus': [('u_color', {}), ('u_round', UR_OPT)],
             'kani': [{'crate_dir': '', 'inject': [YR, KC], 'append': [('k_color.rs', txt)], 'harnesses': hs}]}
 reg('C08', plan=plan_c08, level='proof', min_obligations=400,
     title='YUV->RGB->YUV is a lossless code round trip',
@@ -447,7 +448,7 @@ def plan_c06(tier, seed):
         hs += [H(f'prim_{p}_to709', domain='input-free', desc=f'{p} -> BT.709: images of e1,e2,e3 (= the f32 matrix entries) within 2e-6 of the columns of M_out^-1*Bradford*M_in (f64, H.273 chromaticities); row abs sums <= 5.5; white -> white; there-and-back'),
                H(f'prim_709_to_{p}', domain='input-free', desc=f'BT.709 -> {p}: same checks')]
     hs.append(H('prim_same_is_identity', domain='one symbolic pixel (all f32 triples)', desc='identical primaries: bit-exact identity'))
-    return {'verus': [('u_dispatch', {}), ('u_matrix', {}), ('u_round', {})], 'kani': [{'crate_dir': '', 'inject': [KC], 'harnesses': hs}]}
+    return {'verus': [('u_dispatch', {}), ('u_matrix', {}), ('u_round', UR_OPT)], 'kani': [{'crate_dir': '', 'inject': [KC], 'harnesses': hs}]}
 reg('C06', plan=plan_c06, level='proof', min_obligations=1000,
     title='Primaries conversion equals the CIE derivation and keeps white white',
     technique='Kani input-free bit-precise evaluation of the real transform_primaries on the basis and white for all 10 non-trivial primaries x 2 directions against the f64 CIE/Bradford derivation; Verus: composition structure, in-place pointwise map, identity clause, exact linearity of mul_arr',
